@@ -319,6 +319,11 @@ class OptimizeAnalysis:
                 tags = {(v, tg) for v, tg in tags if v != k}
                 if isinstance(st, ast.Assign):
                     src = self.var_key(st.value)
+                    rel = self.index_from_loopvar(st.value) if src is None else None
+                    if rel is not None:
+                        base, kk = rel
+                        from_end = (s.appends + kk) if (base == "loopvar" and s.phase in ("first", "later")) else (kk if base == "bound" and s.phase == "post" else None)
+                        src = {1: "$last", 2: "$last2"}.get(from_end)
                     if src is not None:
                         tags |= {(k, tg) for v, tg in s.tags if v == src}
                     elif isinstance(st.value, ast.Call) and unp(st.value.func).endswith("IterationResult"):
@@ -408,6 +413,8 @@ def self_reads_writes(pkg, fn, _stack=()):
         if st is None:
             return written
         exprs = header_of(st, kind) if kind in ("if", "while", "for", "with", "assert") else ([st] if kind != "try" else [])
+        if isinstance(st, (ast.FunctionDef, ast.ClassDef)):
+            exprs = []      # defining a nested function executes nothing of its body
         w = set(written)
         # calls first (their reads happen before this statement's own stores)
         for e in exprs:
